@@ -480,6 +480,26 @@ Definition char_literal_to_ll (s : str) : option Z :=
       end
   end.
 
+(* number of characters of a narrow literal (Token::isCChar / isCMultiChar: size of the unescaped text) *)
+Definition narrow_nbytes (s : str) : option N :=
+  match s with
+  | 39 :: r => match char_loop (length s) CNarrow r 0 0 with
+               | Some (_, nbytes, [39]) => Some nbytes
+               | _ => None
+               end
+  | _ => None
+  end.
+
+(* ValueFlow::truncateIntValue(value, value_size, dst_sign) for 1 <= value_size <= 8 (lib/vf_common.cpp):
+   keep the low 8*size bits, sign-extend for a signed destination; the result lives in the 64-bit bigint *)
+Definition truncate_int_value (z : Z) (size : N) (signed : bool) : Z :=
+  if size =? 0 then z
+  else
+    let bits := Z.of_N (8 * size) in
+    let m := (z mod 2 ^ bits)%Z in
+    let r := if signed && (2 ^ (bits - 1) <=? m)%Z then (m - 2 ^ bits)%Z else m in
+    if (9223372036854775808 <=? r)%Z then (r - 18446744073709551616)%Z else r.
+
 (* ---- MathLib::toBigUNumber / toBigNumber (string overloads).
    The two functions have the same branches; toBigNumber converts the 64-bit unsigned result
    to bigint (two's complement), its isBin loop runs on bigint with the same bits. *)
